@@ -205,6 +205,15 @@ class Ctx:
             r = sr.smin(r, x) if self.mode == 'sym' else min(r, x)
         return r
 
+    def sdiv(self, a, b):
+        """a/b ; concrete mode: nan instead of ZeroDivisionError (oracle arms not selected)"""
+        if self.mode != 'sym':
+            try:
+                return a / b
+            except ZeroDivisionError:
+                return math.nan
+        return a / b
+
     def fn(self, name, x):
         if isinstance(x, Sym):
             return getattr(x, name)()
@@ -311,6 +320,30 @@ class Ctx:
         else:
             v = _fl(x)
             self.obs[oid] = {'kind': 'finite', 'lhs': v, 'rhs': None, 'ok': math.isfinite(v),
+                             'pre_ok': all(bool(p) for p in pre)}
+
+    def finite_all(self, oid, values, pre=(), **kw):
+        """totality of a whole vector: one obligation per DISTINCT denominator node (sym);
+        one 'all finite' observation (conc).  Replay looks <oid>/den<k> up as <oid>."""
+        if self.mode == 'sym':
+            seen = set()
+            k = 0
+            for d in sr.divisors([sr.lift(v) for v in values]):
+                if d.id in seen:
+                    continue
+                seen.add(d.id)
+                g = sr.bnot(sr.cmp('=', d, sr.ZERO))
+                if g is sr.TRUE:
+                    continue
+                self.obs['%s/den%d' % (oid, k)] = Ob('%s/den%d' % (oid, k), 'bool', None, None, g,
+                                                     list(self.pre) + self._prenodes(pre), nodefs=True, **kw)
+                k += 1
+            if k == 0:
+                self.obs[oid + '/den0'] = Ob(oid + '/den0', 'bool', None, None, sr.TRUE, [], nodefs=True, **kw)
+        else:
+            vs = [_fl(v) for v in values]
+            bad = [v for v in vs if not math.isfinite(v)]
+            self.obs[oid] = {'kind': 'finite', 'lhs': (bad[0] if bad else 0.0), 'rhs': None, 'ok': not bad,
                              'pre_ok': all(bool(p) for p in pre)}
 
     def same_term(self, oid, a, b, **kw):
@@ -432,6 +465,23 @@ def _defs_hyps(nodes):
     return hy
 
 
+def auto_axioms(nodes):
+    """universally true facts about the uninterpreted functions occurring in a query:
+    a**b > 0 for constant a > 0 ; exp(x) > 0 ; -1 <= sin, cos <= 1"""
+    out = []
+    for n in sr.topo(nodes):
+        if n.op != 'uf':
+            continue
+        f = n.args[0]
+        if f == 'pow' and sr.isc(n.args[1]) and sr.cv(n.args[1]) > 0:
+            out.append(sr.cmp('<', sr.ZERO, n))
+        elif f == 'exp':
+            out.append(sr.cmp('<', sr.ZERO, n))
+        elif f in ('sin', 'cos'):
+            out.append(sr.cmp('<=', n, sr.ONE)); out.append(sr.cmp('<=', sr.const(-1), n))
+    return out
+
+
 def _relevant(pre, goal_nodes):
     """keep preconditions connected (through shared variables) to the goal"""
     need = set(sr.free_vars(goal_nodes))
@@ -481,6 +531,7 @@ def discharge(ob, axioms=(), timeout=20, solvers=('z3',), robust=True):
     if not ob.nodefs:
         hyps = _defs_hyps(goal_nodes + keep)
     asserts = keep + hyps + [neg]
+    asserts = asserts + auto_axioms(asserts)
     to = ob.timeout or timeout
     nq = 0
     tt = 0.0
@@ -577,6 +628,8 @@ def process_scenario(task):
                         continue
                     for oid, ob in ctx.obs.items():
                         c = cc.obs.get(oid)
+                        if c is None and '/den' in oid and oid.rsplit('/den', 1)[0] in cc.obs:
+                            continue
                         if c is None:
                             if not multi:
                                 out['validation']['mismatch'].append('%s: obligation missing in concrete run' % oid)
@@ -687,6 +740,8 @@ def _replay(fn, params, env, oid):
     finally:
         pass
     c = cc.obs.get(oid)
+    if c is None and '/den' in oid:
+        c = cc.obs.get(oid.rsplit('/den', 1)[0])
     if c is None:
         return {'reproduced': False, 'why': 'obligation not reached in concrete run'}
     if not cc.pre_ok:
